@@ -482,6 +482,38 @@ def validate_parse(ctx):
     _cmp(ctx, "pgen.parse", reqs, wants)
 
 
+class _TailCtx:
+    """the model_answers machinery of _parser_lib with `parser.parse` requests sent to the TRANSLATED tail of parse()"""
+
+    def __init__(self, ctx):
+        self.ctx = ctx
+
+    def driver(self, lines):
+        return self.ctx.driver([("pgen.parsetail " + x[len("parser.parse "):]) if x.startswith("parser.parse ") else x for x in lines])
+
+    def __getattr__(self, n):
+        return getattr(self.ctx, n)
+
+
+def validate_parsetail(ctx):
+    from props import c14
+    rng = ctx.subrng("pgen.parsetail")
+    prev = L.set_tz("UTC")
+    try:
+        for tzenv in ("UTC", "Europe/London"):
+            L.set_tz(tzenv)
+            calls = c14.gen_calls(ctx, rng, ctx.budget(1500, 8000))
+            model = L.model_answers(_TailCtx(ctx), calls)
+            for c, m in zip(calls, model):
+                i, _, _ = L.run_impl(c)
+                ctx.traces += 1
+                if i != m:
+                    ctx.mismatch("pgen.parsetail", c.describe(), i, m)
+            ctx.count("pgen_parsetail", len(calls))
+    finally:
+        L.set_tz(prev)
+
+
 STEP_TEXTS = ["10:36:28 BRST", "10:36 GMT+3", "10:36 UTC-3", "10:36 -0300 (BRST)", "10:36 +03:00", "10:36 -3", "10:36 +0300", "10:36 -030",
               "10:36 -03:00 (EST)", "10:36 +0300 (ABCDEF)", "10:36 +0300 , (BRT)", "Sep-25-2003", "Sep/25", "Sep-25", "Jan of 01", "Jan of ab",
               "Jan of 2001", "September of 99", "Sep 25", "10 pm", "10pm", "am 10", "Thu Sep 25 10:36:28 2003", "Thursday", "10 a", "x y z",
@@ -572,3 +604,4 @@ def validate(ctx):
     validate_naive(ctx)
     validate_loop(ctx)
     validate_parse(ctx)
+    validate_parsetail(ctx)
